@@ -160,6 +160,9 @@ func driveC19(t *testing.T, out *vEmitter) {
 			}()
 			count++
 			if res.Panic != nil {
+				if stack == "" {
+					stack = res.Stack
+				}
 				where := ""
 				for _, ln := range strings.Split(stack, "\n") {
 					if strings.Contains(ln, "/repo/") && !strings.Contains(ln, "zz_verif") {
